@@ -935,6 +935,14 @@ func (c *specCtx) call(n *ast.CallExpr) (sv, error) {
 			return sv{}, err
 		}
 		return c.mk(types.Typ[types.UnsafePointer], "(i-tag "+v.S+")"), nil
+	case "nonnilptr":
+		// if the dynamic type of the interface value is a pointer type, the pointer is not nil
+		v, err := c.eval(args[0])
+		if err != nil {
+			return sv{}, err
+		}
+		e.sc.typeTag(types.Typ[types.Int]) // make sure ptrtag is declared
+		return c.mk(tBool, fmt.Sprintf("(=> (ptrtag (i-tag %s)) (not (= (i-pay %s) 0)))", v.S, v.S)), nil
 	case "typeis":
 		// typeis(x, T): dynamic type of interface x is T
 		v, err := c.eval(args[0])
